@@ -620,6 +620,7 @@ def check_heap_scheduler(src: Source, rep: Report, unit: CUnit) -> None:
                "heap_entries.append(...) unconditionally for every entry returned by the heap",
                "every entry still stored in the C heap must be pickled (also trashed ones and ones tied with the last returned time): "
                "a skipped live entry is an event that never happens in the resumed run")
+        check_delete_events(unit, rep)   # the C half of the counter-overflow branch (R6.4)
         rep.ob("R6.6-iterates-all-entries", iterates, Loc(HEAP_PY, gs.lineno, f"{cls.name}.__getstate__"), "entry(index) for index = 0, 1, ... until NULL",
                "all entries must be read out: index from 0 in steps of one, every fetched entry appended, stop only at the NULL handler")
 
@@ -869,7 +870,6 @@ def analyse(src: Source) -> List[Report]:
     rep.expect_min("R6.2-index-in-bounds", 14)
     rep.expect_min("R6.2-invariant-restored", 8)
     rep.expect_min("R6.9-allocated-bytes-follow-the-heap", 2)
-    check_delete_events(unit, rep)
     check_cdef(src, unit, rep)
     check_heap_scheduler(src, rep, unit)
     check_list_scheduler(src, rep)
